@@ -149,6 +149,12 @@ pub fn main(args: &[String]) -> i32 {
 			}
 		}
 		let overwrite = rng.chance(1, 4);
+		// column-count family (1 case in 25): the requested configuration has one column more than the source
+		let extra_col = boundary.is_none() && rng.chance(1, 25);
+		if extra_col {
+			expect_refusal = 1;
+			*dist.entry("column-count-mismatch-refused".to_string()).or_insert(0) += 1;
+		}
 		let nkeys = if boundary.is_some() { rng.range(8, 12) as usize } else { rng.range(2, 12) as usize };
 		if let Some(t) = boundary {
 			*dist.entry(format!("boundary-total-insertions-{t}")).or_insert(0) += 1;
@@ -240,7 +246,13 @@ pub fn main(args: &[String]) -> i32 {
 		}
 		let before = snapshot(&sdir);
 		let force_list: Vec<u8> = forced.iter().enumerate().filter(|(_, f)| **f).map(|(i, _)| i as u8).collect();
-		let mut to = options(&ddir, &dst, salt);
+		let mut to = if extra_col {
+			let mut d2 = dst.clone();
+			d2.push(Flags { preimage: false, rc: false, lz4: false, uniform: false, btree: false });
+			options(&ddir, &d2, salt)
+		} else {
+			options(&ddir, &dst, salt)
+		};
 		to.with_background_thread = false;
 		let res = std::panic::catch_unwind(std::panic::AssertUnwindSafe(|| parity_db::migrate(&sdir, to, overwrite, &force_list)));
 		let status = match &res {
@@ -345,7 +357,7 @@ pub fn main(args: &[String]) -> i32 {
 		for c in 0..ncols {
 			case.extend_from_slice(&[src[c].bits(), dst[c].bits(), forced[c] as u64]);
 		}
-		case.push(overwrite as u64);
+		case.push(overwrite as u64 + 2 * extra_col as u64);
 		case.push(nkeys as u64);
 		for c in 0..ncols {
 			for k in 0..nkeys {
